@@ -392,6 +392,10 @@ func init() {
 			// millisecond clock: an arbitrary 32-bit reading plus the endpoint's offset
 			return x.B.Add(x.input(x.inputName("tsclock"), 32), a[0].(*T))
 		},
+		ModulePath + "/protocol/transport/tcp.flagString": func(x *X, fn *ssa.Function, a []Value) Value {
+			return x.strConst("<flags>") // only used in log output
+		},
+		"internal/abi.NoEscape": func(x *X, fn *ssa.Function, a []Value) Value { return a[0] },
 		"(*" + ModulePath + "/protocol.StatCounter).Increment":   nop,
 		"(*" + ModulePath + "/protocol.StatCounter).IncrementBy": nop,
 	}
